@@ -22,6 +22,121 @@ LOCK_HELD = {'_thread_canary_detach_with_lock': 'documented: must be called with
 EXEMPT_FUNCS = {'init_cffi_tls_zombie': 'module initialisation, before any other thread can reach the list'}
 
 
+def _heap_run(tu, fname, heap, params):
+    """execute the straight-line pointer assignments of `fname` on a small explicit heap (shape analysis on a bounded
+    model: the functions are branch-free list surgery, so every list length >= the number of nodes they touch behaves
+    the same).  heap: {node: {field: node or None}}; params: {name: node}.  Returns the final heap."""
+    from .. import AnalysisError
+    fn = tu.func(fname)
+    g = cfg_of(tu, fname)
+    env = dict(params)
+
+    def ev(e):
+        e = cx.strip(e, casts=True)
+        k = e.get('kind')
+        if k == 'DeclRefExpr':
+            nm = e['ref']['name']
+            if nm in env:
+                return env[nm]
+            if nm in heap:
+                return nm          # a global object used by value (cffi_zombie_head.f)
+            raise AnalysisError('%s: unknown name %s in the list surgery' % (fname, nm))
+        if k == 'UnaryOperator' and e.get('opcode') == '&':
+            inner = cx.strip(cx.kids(e)[0], casts=True)
+            if inner.get('kind') == 'DeclRefExpr' and inner['ref']['name'] in heap:
+                return inner['ref']['name']
+        if k == 'MemberExpr':
+            base = ev(cx.kids(e)[0])
+            if base is None:
+                raise AnalysisError('%s: NULL dereference in the model' % fname)
+            return heap[base][e.get('name')]
+        if cx.is_null(e):
+            return None
+        raise AnalysisError('%s: expression %s not modelled' % (fname, cx.render(e)))
+    # statements in execution order: follow the single path, taking the non-fatal side of `if (...) Py_FatalError`
+    cur = g.entry.id
+    seen = set()
+    while cur is not None and cur not in seen:
+        seen.add(cur)
+        n = g.nodes[cur]
+        if n.ast is not None and n.kind == 'stmt':
+            for a in cx.assignments(n.ast):
+                lhs = a[0]
+                if a[2] not in ('=', 'init'):
+                    raise AnalysisError('%s: compound assignment in the list surgery' % fname)
+                val = ev(a[1])
+                if lhs.get('kind') == 'VarDecl':
+                    env[lhs['name']] = val
+                else:
+                    l = cx.strip(lhs, casts=True)
+                    if l.get('kind') == 'DeclRefExpr':
+                        env[l['ref']['name']] = val
+                    elif l.get('kind') == 'MemberExpr':
+                        base = ev(cx.kids(l)[0])
+                        heap[base][l.get('name')] = val
+                    else:
+                        raise AnalysisError('%s: store to %s not modelled' % (fname, cx.render(l)))
+        nxt = None
+        if n.kind == 'cond':
+            # the guard `if (ob->zombie_next) fatal`: evaluate it on the model
+            v = ev(n.ast) if cx.strip(n.ast, casts=True).get('kind') in ('MemberExpr', 'DeclRefExpr') else None
+            for t, l in n.succ:
+                if (l == 'T') == bool(v):
+                    nxt = t
+        else:
+            for t, _l in n.succ:
+                nxt = t
+        cur = nxt
+    return heap
+
+
+def _ring(heap, head, nxt='zombie_next', prv='zombie_prev'):
+    """forward order of a circular doubly-linked list, or None if it is not well formed"""
+    order = []
+    cur = heap[head][nxt]
+    for _ in range(len(heap) + 2):
+        if cur == head:
+            break
+        if cur is None or cur not in heap:
+            return None
+        order.append(cur)
+        cur = heap[cur][nxt]
+    else:
+        return None
+    # prev pointers mirror the next pointers
+    ring = [head] + order
+    for i, x in enumerate(ring):
+        if heap[ring[(i + 1) % len(ring)]][prv] != x:
+            return None
+    return order
+
+
+def list_surgery(run, tu):
+    H = 'cffi_zombie_head'
+    for k in range(0, 4):
+        names = ['z%d' % i for i in range(k)]
+
+        def fresh():
+            heap = {H: {}, 'ob': {'zombie_next': None, 'zombie_prev': None}}
+            ring = [H] + names
+            for i, x in enumerate(ring):
+                heap.setdefault(x, {})
+                heap[x]['zombie_next'] = ring[(i + 1) % len(ring)]
+                heap[x]['zombie_prev'] = ring[(i - 1) % len(ring)]
+            return heap
+        heap = _heap_run(tu, 'thread_canary_make_zombie', fresh(), {'ob': 'ob'})
+        got = _ring(heap, H)
+        run.ob('Z4/zombie-list-insertion-keeps-the-ring', 'thread_canary_make_zombie', 'insert into a list of %d' % k, got == names + ['ob'], tu.where(tu.func('thread_canary_make_zombie')),
+               'forward order after the insertion: %s (None = next/prev pointers no longer form one ring); expected %s' % (got, names + ['ob']))
+        for victim in names:
+            heap = fresh()
+            heap = _heap_run(tu, '_thread_canary_detach_with_lock', heap, {'ob': victim})
+            got = _ring({x: v for x, v in heap.items() if x != victim and x != 'ob'}, H) if all(heap[x]['zombie_next'] != victim and heap[x]['zombie_prev'] != victim for x in heap if x not in (victim, 'ob')) else None
+            okv = got == [x for x in names if x != victim] and heap[victim]['zombie_next'] is None and heap[victim]['zombie_prev'] is None
+            run.ob('Z4/zombie-list-removal-keeps-the-ring', '_thread_canary_detach_with_lock', 'remove %s from a list of %d' % (victim, k), okv, tu.where(tu.func('_thread_canary_detach_with_lock')),
+                   'order after removal %s, victim links %s' % (got, heap[victim]))
+
+
 def lock_nodes(g):
     acq = [n.id for n in g.nodes if n.ast is not None and any(cx.render(cx.call_args(c)[0]) == 'cffi_zombie_lock' for c in cx.calls_in(n.ast, 'PyThread_acquire_lock'))]
     rel = [n.id for n in g.nodes if n.ast is not None and any(cx.render(cx.call_args(c)[0]) == 'cffi_zombie_lock' for c in cx.calls_in(n.ast, 'PyThread_release_lock'))]
@@ -47,6 +162,8 @@ def check(run):
         'documented as "with lock" are checked at their call sites; three exceptions are listed with their reason and '
         're-verified structurally. Plus the shape of gil_ensure and of the shutdown destructor.')
     tu = backend_tu()
+    list_surgery(run, tu)
+    run.min_instances('Z4', 8)
     nacc = 0
     funcs = [fn for fn, f in tu.functions.items() if tu.has_func(fn) and (tu.rel(f.get('file')) or '').endswith(('misc_thread_common.h', 'misc_thread_posix.h'))]
     run.saw('functions of the thread-state code', sorted(funcs))
@@ -114,8 +231,15 @@ def check(run):
     run.ob('Z2/canary-registered-only-for-a-newly-created-thread-state', fn, 'if (ts == NULL) { PyGILState_Ensure(); thread_canary_register(ts); }', ok, tu.where(tu.func(fn)))
     rets = [rules.return_value(n) for n in g.nodes if n.kind == 'return' and n.id in g.live()]
     run.ob('Z2/every-branch-returns-a-gil-state', fn, 'returns %s' % rets, len(rets) == 3 and all(r in ('result', '0', '1', 'PyGILState_LOCKED', 'PyGILState_UNLOCKED') for r in rets), tu.where(tu.func(fn)))
-    cnt = [n for n in g.nodes if n.ast is not None and n.kind == 'stmt' and stmt_text(n.ast) == 'ts->gilstate_counter++']
-    ok = len(cnt) == 1 and bool(rules.nonnull_facts('ts') & g.fact_texts(cnt[0].id))
+    cnt = [n for n in g.nodes if n.ast is not None and n.kind == 'stmt' and stmt_text(n.ast).replace(' ', '') in ('ts->gilstate_counter++', '++ts->gilstate_counter', 'ts->gilstate_counter+=1')]
+    ok = len(cnt) >= 1 and all(bool(rules.nonnull_facts('ts') & g.fact_texts(c_.id)) for c_ in cnt)
+    # gil_release always ends in PyGILState_Release, which decrements: *every* return taken with an existing
+    # thread state must have passed an increment (also the "GIL already held" one)
+    if ok:
+        for r in g.nodes:
+            if r.kind == 'return' and r.id in g.live() and (rules.nonnull_facts('ts') & g.fact_texts(r.id)):
+                if not g.must_precede(r.id, [c_.id for c_ in cnt]):
+                    ok = False
     run.ob('Z2/existing-thread-state-kept-alive-by-its-counter', fn, 'if (ts != NULL) ts->gilstate_counter++', ok, tu.where(tu.func(fn)))
     g2 = cfg_of(tu, 'thread_canary_register')
     firstcall = [n for n in g2.nodes if n.ast is not None and cx.calls_in(n.ast)]
